@@ -81,6 +81,11 @@ CHECKS = {
         text="Generated-input search: ~17k (quick) / ~1M (thorough) quadruples built in internal coordinates so that the IUPAC dihedral is known by construction, then rigidly moved; both implementations, the Atom wrapper, Residue3D.chi/chi_class and the tertiary_v2 torsion table (corpus files) are compared with the prescribed value / an independent formula. The v2 sign inversion is a recorded known finding (exact signature); everything else about v2 and all of v1 is checked without exclusion.",
         note=TRUST + "Bond angles 20-160 deg, lengths 0.8-2.5 A as the quantifier states; tolerance 1e-7 rad; chi_class is checked only in the uncontroversial anti / syn regions.",
         ref="3 C18"),
+    "C15": dict(
+        technique="differential testing: generated atom tables serialised by independent emitters in both formats and read by both reader generations (4 readings) + single-conformer corpus files; keyed comparison, connectivity and |chi| against harness geometry",
+        text="Generated-input search: each generated altloc-free table (with P atoms planted at 1.6-3.0 A from the previous O3', on both sides of 2.4 A) is written as PDB and mmCIF and read by the residue-level and the table-level reader; residue keys, names, atom multisets and coordinates must agree among the four readings and with the table, is_connected of both object models with the harness's distance test, connected segments with the implied segmentation, and |chi| between the two torsion implementations and the two formats.",
+        note=TRUST + "Tables avoid atoms closer than 0.6 A (the 0.5 A clash filter of the residue-level reader is C08's subject). Residue order is not compared.",
+        ref="3 C15"),
     "C16": dict(
         technique="exhaustive enumeration of pairings + Hypothesis structures against an independent enumeration of greedy-stable colourings (set equality)",
         text="Generated-input search: for all pairings on <=8/11 positions and drawn structures with components of <=6/8 stems, the produced list is compared as a set of per-stem level vectors with the product of all Grundy (greedy-stable) proper colourings computed without permutations; also no repetition, contains optimal and FCFS, singleton for knot-free.",
